@@ -373,3 +373,16 @@ void h_ws_unmask(void)
 	VERIF_COVER(length == 3, "short payload");
 	VERIF_COVER(length == 8 && align == 0, "exactly one aligned word");
 }
+
+/* ---- ws.version: HTTP version gate of the upgrade (RFC 6455 4.2.1: HTTP/1.1 or higher) ------------------------- */
+void h_ws_version(void)
+{
+	struct http_parser p;
+	unsigned short major = nondet_u16(), minor = nondet_u16();
+	p.http_major = major; p.http_minor = minor;
+	int r = check_http_version(&p);
+	bool ok = major > 1 || (major == 1 && minor >= 1);
+	__CPROVER_assert((r == 0) == ok && (r == 0 || r == -1), "C13.version.upgrade-only-for-http-1.1-or-higher");
+	VERIF_COVER(major == 0 && minor == 9 && r == -1, "HTTP/0.9 refused");
+	VERIF_COVER(major == 1 && minor == 1 && r == 0, "HTTP/1.1 accepted");
+}
